@@ -16,6 +16,7 @@ void   verif_assume(int cond);
 void   verif_assert(int cond, const char *label);
 void   verif_assert_eq(double a, double b, const char *label);   // exact equality under the exact-real reading
 void   verif_assert_deriv(double f, const char *var, double expected, const char *label); // d f / d var == expected
+double verif_ad_seed(double value, const char *name);   // 'value' as the current value of differentiation variable 'name' (evaluation on a slice)
 double verif_deriv(double f, const char *var);         // d f / d var by forward-mode differentiation of the executed code
 int    verif_is_integer(double v);                 // 1 iff v is an integer (symbolic boolean in the interpreter)
 void   verif_reach(const char *label);                 // vacuity witness: the path condition here must be satisfiable
@@ -25,5 +26,6 @@ void   verif_out_str(const char *name, const char *s);
 void   verif_note(const char *text);
 void   verif_stop(void);
 void   verif_log_accesses(int on);
+long   verif_param(const char *name, long dflt);       // tier-dependent bound chosen by the check driver (recorded in the evidence)
 void   verif_need_module(void);                        // native runs: make sure a Colvars module + stub proxy exist (cvm::error needs them); interpreter: no-op, cvm::error is modelled
 }
